@@ -321,6 +321,7 @@ type node struct {
 }
 
 type nodeCfg struct {
+	Prefix4                int // WithInflightRPCSubnetPrefixes(Prefix4, 128); 0 = 32
 	MaxInflight, MaxSubnet int
 	MaxIn, MaxOut          int
 	Discovery              time.Duration
@@ -346,6 +347,9 @@ func newNode(c nodeCfg) (*node, error) {
 	if c.Discovery == 0 {
 		c.Discovery = time.Hour
 	}
+	if c.Prefix4 == 0 {
+		c.Prefix4 = 32
+	}
 	nd := &node{rec: rec, genesis: genesis.ID(), runErr: make(chan error, 1), closed: make(chan struct{}), closed2: make(chan struct{})}
 	nd.cm = newGateCM(chain.NewManager(store, ts), rec, c.SubnetOf)
 	nd.ps = newGatePS(rec)
@@ -356,7 +360,7 @@ func newNode(c nodeCfg) (*node, error) {
 	nd.l = l
 	nd.s = syncer.New(l, nd.cm, nd.ps, gateway.Header{GenesisID: genesis.ID(), UniqueID: gateway.GenerateUniqueID(), NetAddress: l.Addr().String()},
 		syncer.WithMaxInflightRPCs(c.MaxInflight), syncer.WithMaxInflightRPCsPerSubnet(c.MaxSubnet),
-		syncer.WithInflightRPCSubnetPrefixes(32, 128),
+		syncer.WithInflightRPCSubnetPrefixes(c.Prefix4, 128),
 		syncer.WithMaxInboundPeers(c.MaxIn), syncer.WithMaxOutboundPeers(c.MaxOut),
 		syncer.WithSyncInterval(time.Hour), syncer.WithPeerDiscoveryInterval(c.Discovery),
 		syncer.WithConnectTimeout(2*time.Minute), syncer.WithRPCTimeout(10*time.Minute), syncer.WithMaxSendBlocks(10))
@@ -461,6 +465,100 @@ type client struct {
 }
 
 func subnetIP(i int) string { return fmt.Sprintf("127.0.1.%d", i+1) }
+
+// An addrPlan realises the specification's peer -> subnet MAP with real loopback addresses and a
+// configured IPv4 prefix length (WithInflightRPCSubnetPrefixes), so that the subnet limit is
+// exercised over DISTINCT addresses that fall into one configured subnet, and over the same
+// addresses under a prefix that separates them:
+//
+//	same32   /32  the peers of subnet i share the address 127.0.1.(i+1) (ports differ)
+//	net24    /24  subnet i = 127.0.(20+i).0/24, peer p dials from 127.0.(20+i).p
+//	net16    /16  subnet i = 127.(20+i).0.0/16, peer p dials from 127.(20+i).p.1
+//	split32  /32  peer p dials from 127.0.20.p -- the addresses that share a subnet under net24 are
+//	              subnets of their own here; only for maps in which no two peers share a subnet
+type addrPlan string
+
+var addrPlans = []addrPlan{"same32", "net24", "net16", "split32"}
+
+func (a addrPlan) bits() int {
+	switch a {
+	case "net24":
+		return 24
+	case "net16":
+		return 16
+	}
+	return 32
+}
+
+func (a addrPlan) peerIP(sub, p int) string {
+	switch a {
+	case "net24":
+		return fmt.Sprintf("127.0.%d.%d", 20+sub, p)
+	case "net16":
+		return fmt.Sprintf("127.%d.%d.1", 20+sub, p)
+	case "split32":
+		return fmt.Sprintf("127.0.20.%d", p)
+	}
+	return subnetIP(sub)
+}
+
+// key is the inflightSubnet key the syncer must use for that peer: the NETWORK in CIDR notation.
+func (a addrPlan) key(sub, p int) string {
+	switch a {
+	case "net24":
+		return fmt.Sprintf("127.0.%d.0/24", 20+sub)
+	case "net16":
+		return fmt.Sprintf("127.%d.0.0/16", 20+sub)
+	}
+	return a.peerIP(sub, p) + "/32"
+}
+
+// valid: split32 needs every peer alone in its subnet.
+func (a addrPlan) valid(shared bool) bool { return a != "split32" || !shared }
+
+var (
+	aliasOnce sync.Once
+	aliasOK   bool
+)
+
+// loopbackAliases reports whether addresses other than 127.0.0.1 can be bound on this machine;
+// if not, only the same32 plan is used (counted, never an error).
+func loopbackAliases() bool {
+	aliasOnce.Do(func() {
+		aliasOK = true
+		for _, ip := range []string{"127.0.20.1", "127.21.2.1", "127.0.1.2"} {
+			l, err := net.Listen("tcp", ip+":0")
+			if err != nil {
+				aliasOK = false
+				return
+			}
+			l.Close()
+		}
+	})
+	return aliasOK
+}
+
+// plansFor lists the address plans that realise a peer -> subnet map.
+func plansFor(subnets map[string]string) []addrPlan {
+	if !loopbackAliases() {
+		return []addrPlan{"same32"}
+	}
+	shared := false
+	seen := map[string]bool{}
+	for _, s := range subnets {
+		if seen[s] {
+			shared = true
+		}
+		seen[s] = true
+	}
+	var ps []addrPlan
+	for _, a := range addrPlans {
+		if a.valid(shared) {
+			ps = append(ps, a)
+		}
+	}
+	return ps
+}
 
 func newClient(idx int, srcIP string, port int, genesis types.BlockID) *client {
 	return &client{idx: idx, srcIP: srcIP, port: port, genesis: genesis, outcomes: map[int]string{}, changed: make(chan struct{})}
